@@ -439,22 +439,24 @@ impl<W: AsRef<[u64]>> Iterator for Children<'_, W> {
     type Item = usize;
 
     fn next(&mut self) -> Option<Self::Item> {
-        if self.current_idx >= self.end_idx {
-            return None;
-        }
-
-        let pos = self.index.structural_pos(self.current_idx)?;
-        self.current_idx += 1;
-
-        // Skip delimiters (: and ,)
-        if pos < self.json.len() {
-            let c = self.json[pos];
-            if c == b':' || c == b',' {
-                return self.next();
+        loop {
+            if self.current_idx >= self.end_idx {
+                return None;
             }
-        }
 
-        Some(pos)
+            let pos = self.index.structural_pos(self.current_idx)?;
+            self.current_idx += 1;
+
+            // Skip delimiters (: and ,)
+            if pos < self.json.len() {
+                let c = self.json[pos];
+                if c == b':' || c == b',' {
+                    continue;
+                }
+            }
+
+            return Some(pos);
+        }
     }
 }
 
